@@ -314,7 +314,7 @@ impl S3Auth for RecAuth {
     }
 }
 
-#[derive(Clone, Debug, PartialEq, Eq)]
+#[derive(Clone, Debug, PartialEq, Eq, serde::Serialize, serde::Deserialize)]
 pub enum AccessPolicy {
     /// same as the default: refuse anonymous
     DefaultLike,
@@ -359,7 +359,7 @@ impl RecAccess {
     }
 }
 
-#[derive(Clone, Debug, PartialEq, Eq)]
+#[derive(Clone, Debug, PartialEq, Eq, serde::Serialize, serde::Deserialize)]
 pub enum RoutePolicy {
     /// matches every request carrying header `x-verif-route: 1`
     MatchMarked,
@@ -421,14 +421,14 @@ impl s3s::route::S3Route for RecRoute {
 // Service configuration
 // ---------------------------------------------------------------------------------------------
 
-#[derive(Clone, Debug, PartialEq, Eq)]
+#[derive(Clone, Debug, PartialEq, Eq, serde::Serialize, serde::Deserialize)]
 pub enum HostCfg {
     None,
     Single(String),
     Multi(Vec<String>),
 }
 
-#[derive(Clone, Debug)]
+#[derive(Clone, Debug, serde::Serialize, serde::Deserialize)]
 pub struct SvcCfg {
     pub host: HostCfg,
     /// None = no auth provider
@@ -466,7 +466,7 @@ pub fn build_service(cfg: &SvcCfg, backend: impl s3s::S3, log: &EventLog) -> S3S
 // Framed request body
 // ---------------------------------------------------------------------------------------------
 
-#[derive(Clone, Debug, Default)]
+#[derive(Clone, Debug, Default, serde::Serialize, serde::Deserialize)]
 pub struct Framing {
     /// frame lengths (sum may be < total: the rest goes in a last frame); empty = one frame
     pub cuts: Vec<usize>,
@@ -590,13 +590,15 @@ impl http_body::Body for FramedBody {
 // Raw request driver
 // ---------------------------------------------------------------------------------------------
 
-#[derive(Clone, Debug)]
+#[derive(Clone, Debug, serde::Serialize, serde::Deserialize)]
 pub struct RawRequest {
     pub method: String,
     /// request target as sent (path?query or absolute URI)
     pub uri: String,
     /// header multiset in wire order; values are raw bytes
+    #[serde(with = "hexpairs")]
     pub headers: Vec<(String, Vec<u8>)>,
+    #[serde(with = "hexbytes")]
     pub body: Vec<u8>,
     pub framing: Option<Framing>,
     pub http2: bool,
@@ -858,4 +860,28 @@ pub fn backend_events(events: &[Event]) -> Vec<&BackendEvent> {
 
 pub fn brief_events(events: &[Event]) -> Vec<String> {
     events.iter().map(Event::brief).collect()
+}
+
+pub mod hexbytes {
+    use serde::{Deserialize, Deserializer, Serializer};
+    pub fn serialize<S: Serializer>(v: &Vec<u8>, s: S) -> Result<S::Ok, S::Error> {
+        s.serialize_str(&hex::encode(v))
+    }
+    pub fn deserialize<'de, D: Deserializer<'de>>(d: D) -> Result<Vec<u8>, D::Error> {
+        let s = String::deserialize(d)?;
+        hex::decode(s).map_err(serde::de::Error::custom)
+    }
+}
+
+pub mod hexpairs {
+    use serde::{Deserialize, Deserializer, Serialize, Serializer};
+    pub fn serialize<S: Serializer>(v: &Vec<(String, Vec<u8>)>, s: S) -> Result<S::Ok, S::Error> {
+        let x: Vec<(String, String, String)> =
+            v.iter().map(|(k, b)| (k.clone(), hex::encode(b), crate::core::show_bytes(b))).collect();
+        x.serialize(s)
+    }
+    pub fn deserialize<'de, D: Deserializer<'de>>(d: D) -> Result<Vec<(String, Vec<u8>)>, D::Error> {
+        let x: Vec<(String, String, String)> = Vec::deserialize(d)?;
+        x.into_iter().map(|(k, h, _)| hex::decode(h).map(|b| (k, b)).map_err(serde::de::Error::custom)).collect()
+    }
 }
